@@ -1,12 +1,12 @@
 \* C05 leg A (endpoint set) quick: 1 endpoint (strict or not; endpoints do not interact in Update), 3 advertisements,
-\* timeout 5, any number of rounds of arbitrary environment change + clock step 1 or 5; every 13th two-round scenario
+\* timeout 5, any number of rounds of arbitrary environment change + clock step 1 or 5; every 40th two-round scenario
 \* over 2 endpoints to the harness
 SPECIFICATION Spec
 CONSTANTS NEps = 1
           T = 5
           MaxRounds = 0
           CaseEps = 2
-          CaseStride = 13
+          CaseStride = 40
 INVARIANTS C05_OfferedAndFresh C05_UpStoresContacted C05_UnhealthyNotOffered C05_TimedOutDropped
 VIEW View
 CHECK_DEADLOCK FALSE
